@@ -54,6 +54,8 @@ pub fn expect_payload(payload: &[u8], p: Props, dict: u64, size: Option<u64>, me
     };
     let produced = r.out.len() as u64;
     let need = produced.min(dict);
+    // output a decoder delivers when it accepts an input of the class "truncated-behind-last-bit"
+    let mut open_out: Option<Vec<u8>> = None;
     let (mut v, mut class, mut consumed) = match r.end {
         End::SizeReached => {
             if Some(produced) == size {
@@ -81,7 +83,33 @@ pub fn expect_payload(payload: &[u8], p: Props, dict: u64, size: Option<u64>, me
                 (Exp::Any, "eos-unclean".to_string(), None)
             }
         }
-        End::Truncated => (Exp::Err, "truncated".to_string(), None),
+        End::Truncated => {
+            // The reference decoder normalises AFTER every bit.  When the only missing byte is the one that the
+            // normalisation behind the LAST bit of the size-reaching symbol would read, no decision depends on it: a
+            // decoder that normalises before each bit (liblzma) produces exactly the size in effect and may succeed -
+            // "input that runs out first" does not apply.  Detected by decoding the input padded with 0x00 and with
+            // 0xFF: both reach the size, with the same bytes, reading exactly one byte more.
+            let open = match size {
+                Some(n) => {
+                    let run = |pad: u8| {
+                        let mut pp = payload.to_vec();
+                        pp.push(pad);
+                        refdec::decode(&pp, p, dict, size, None).filter(|r2| r2.end == End::SizeReached && r2.out.len() as u64 == n && r2.consumed == pp.len()).map(|r2| r2.out)
+                    };
+                    match (run(0x00), run(0xFF)) {
+                        (Some(a), Some(b)) if a == b && a.starts_with(&r.out) => Some(a),
+                        _ => None,
+                    }
+                }
+                None => None,
+            };
+            if let Some(o) = open {
+                open_out = Some(o);
+                (Exp::Any, "truncated-behind-last-bit".to_string(), None)
+            } else {
+                (Exp::Err, "truncated".to_string(), None)
+            }
+        }
         End::BadDistance => (Exp::Err, "dist".to_string(), None),
         End::CleanEndNoMarker => (Exp::Any, "clean-end-without-marker".to_string(), None),
     };
@@ -98,7 +126,7 @@ pub fn expect_payload(payload: &[u8], p: Props, dict: u64, size: Option<u64>, me
     }
     Expect {
         v,
-        out: r.out,
+        out: open_out.unwrap_or(r.out),
         class,
         consumed,
         need,
